@@ -402,7 +402,7 @@ func (m c01) roundTrip(c *fw.Ctx, rec gts.Sequence, origin, desc string) []byte 
 				aa, ab := model.CollapseDups(raw), model.CollapseDups(model.Bases(model.Den(b)))
 				// the listed deviation only removes a repeated residue: the written
 				// location must actually contain one, and nothing else may differ.
-				if !model.EqualAtoms(aa, ab) || len(aa) == len(raw) {
+				if !model.EqualAtoms(aa, ab) || len(aa) == len(raw) || !model.OnlyRepeatedPointsRemoved(model.Parts(a), model.Parts(b)) {
 					okAll = false
 				}
 			}
